@@ -277,7 +277,8 @@ func PerpendicDistFromLineSqr64(pt, line1, line2 Point64) float64 {
 		return 0
 	}
 
-	return float64(sqr(a*d-c*b)) / float64(c*c+d*d)
+	cross := mulInt64(a, d).sub(mulInt64(c, b)).toFloat64()
+	return cross * cross / (float64(c)*float64(c) + float64(d)*float64(d))
 }
 
 func Ellipse64(center Point64, radiusX, radiusY float64, steps int) Path64 {
